@@ -470,6 +470,11 @@ do {									\
 	return TRUE;
 }
 
+/* bs->payload counts bits when the bit routines are used (endian 2, 3),
+   octets when the octet routines are used (endian 0, 1). */
+#define PAYLOAD_BITS(bs)						\
+	(((bs)->endian >= 2) ? (bs)->payload : (bs)->payload * 8)
+
 static vbi_bool
 null_function			(vbi3_bit_slicer *	bs,
 				 uint8_t *		buffer,
@@ -546,10 +551,10 @@ vbi3_bit_slicer_slice_with_points
 	points_start = points;
 	*n_points = 0;
 
-	if (bs->payload > buffer_size * 8) {
+	if (PAYLOAD_BITS (bs) > buffer_size * 8) {
 		warning (&bs->log,
 			 "buffer_size %u < %u bits of payload.",
-			 buffer_size * 8, bs->payload);
+			 buffer_size * 8, PAYLOAD_BITS (bs));
 		return FALSE;
 	}
 
@@ -614,10 +619,10 @@ vbi3_bit_slicer_slice		(vbi3_bit_slicer *	bs,
 	assert (NULL != buffer);
 	assert (NULL != raw);
 
-	if (bs->payload > buffer_size * 8) {
+	if (PAYLOAD_BITS (bs) > buffer_size * 8) {
 		warning (&bs->log,
 			 "buffer_size %u < %u bits of payload.",
-			 buffer_size * 8, bs->payload);
+			 buffer_size * 8, PAYLOAD_BITS (bs));
 		return FALSE;
 	}
 
